@@ -1750,11 +1750,16 @@ func callBin(n *node) {
 				out := callFn(value(f), in)
 				for i := 0; i < len(out); i++ {
 					r := out[i]
+					dest := getFrame(f, n.level).data[n.findex+i]
 					if r.Kind() == reflect.Func {
-						getFrame(f, n.level).data[n.findex+i] = r
+						if dest.CanSet() && r.Type().AssignableTo(dest.Type()) {
+							// Set the variable in place, as it may be shared with a closure.
+							dest.Set(r)
+						} else {
+							getFrame(f, n.level).data[n.findex+i] = r
+						}
 						continue
 					}
-					dest := getFrame(f, n.level).data[n.findex+i]
 					if _, ok := dest.Interface().(valueInterface); ok {
 						r = reflect.ValueOf(valueInterface{value: r})
 					}
